@@ -126,11 +126,17 @@ def sch_str(node) -> str:
 
 
 # ============================================================================ values: neutral <-> model syntax <-> python objects
+class Bad(str):
+    """marker for an implementation result of an unexpected Python type: prints as ?<type>, equal to nothing the model prints"""
+
+
 def val_str(node, v) -> str:
     k = node["k"]
     try:
-        if isinstance(v, str) and v.startswith("?"):
-            return v
+        if isinstance(v, Bad):
+            return str(v)
+        if k == "unsupp":
+            return "i1"
         if k in ("int", "enum"):
             return "i" + str(int(v))
         if k == "str":
@@ -144,13 +150,13 @@ def val_str(node, v) -> str:
         if k == "pint":
             return "I(" + ",".join(str(int(x)) for x in v) + ")"
     except Exception as e:  # noqa
-        return "?" + type(e).__name__
-    return "?unsupp"
+        return Bad("?" + type(e).__name__)
+    return Bad("?unsupp")
 
 
 def fields_str(node, vs) -> str:
-    if isinstance(vs, str):
-        return vs
+    if isinstance(vs, Bad):
+        return str(vs)
     return "V[" + ";".join("_" if v is None else val_str(n, v) for (_, n), v in zip(node["fields"], vs)) + "]"
 
 
@@ -180,7 +186,7 @@ def from_py(node, o):
     try:
         if k in ("int", "enum"):
             if isinstance(o, bool) or not isinstance(o, int):
-                return "?" + type(o).__name__
+                return Bad("?" + type(o).__name__)
             return int(o)
         if k == "str":
             return o if isinstance(o, str) else "?" + type(o).__name__
@@ -192,16 +198,16 @@ def from_py(node, o):
             return [vals_of(node, e) for e in o] if isinstance(o, list) else "?" + type(o).__name__
         if k == "pint":
             if not isinstance(o, list) or any(isinstance(x, bool) or not isinstance(x, int) for x in o):
-                return "?" + type(o).__name__
+                return Bad("?" + type(o).__name__)
             return [int(x) for x in o]
     except Exception as e:  # noqa
-        return "?" + type(e).__name__
-    return "?unsupp"
+        return Bad("?" + type(e).__name__)
+    return Bad("?unsupp")
 
 
 def vals_of(node, o):
     if not isinstance(o, node["cls"]):
-        return "?" + type(o).__name__
+        return Bad("?" + type(o).__name__)
     out = []
     for name, (_, n) in zip(node["names"], node["fields"]):
         x = getattr(o, name)
@@ -446,43 +452,50 @@ def gen_cases(types, tier, seed):
 
 
 # ============================================================================ shrinking of a failing value to the culprit field
-def set_paths(node, vs, prefix=()):
-    out = []
+def shrink_candidates(node, vs):
+    """smaller variants of a positional value list: unset a field, drop a list element, shorten a payload"""
     for i, ((tag, n), v) in enumerate(zip(node["fields"], vs)):
         if v is None:
             continue
-        out.append(prefix + (i,))
-        if n["k"] == "struct":
-            out += set_paths(n, v, prefix + (i,))
-    return out
+        yield vs[:i] + [None] + vs[i + 1:]
+        k = n["k"]
+        if k == "struct":
+            for c in shrink_candidates(n, v):
+                yield vs[:i] + [c] + vs[i + 1:]
+        elif k == "seq":
+            if len(v) > 1:
+                for j in range(len(v)):
+                    yield vs[:i] + [v[:j] + v[j + 1:]] + vs[i + 1:]
+            for j, e in enumerate(v):
+                for c in shrink_candidates(n, e):
+                    yield vs[:i] + [v[:j] + [c] + v[j + 1:]] + vs[i + 1:]
+        elif k == "pint" and len(v) > 1:
+            yield vs[:i] + [v[:-1]] + vs[i + 1:]
+            yield vs[:i] + [v[1:]] + vs[i + 1:]
+        elif k in ("bytes", "str") and len(v) > 1:
+            for cut in (1, 255, 256, len(v) // 2, len(v) - 1):
+                if 0 < cut < len(v):
+                    yield vs[:i] + [v[:cut]] + vs[i + 1:]
+        elif k == "int" and v not in (0, 1):
+            yield vs[:i] + [1] + vs[i + 1:]
 
 
-def unset_at(node, vs, path):
-    vs = list(vs)
-    i = path[0]
-    if len(path) == 1:
-        vs[i] = None
-    else:
-        vs[i] = unset_at(node["fields"][i][1], vs[i], path[1:])
-    return vs
-
-
-def shrink_value(node, vs, fails):
-    """greedily unset fields (struct levels only) while the same failure persists"""
-    changed = True
-    budget = 200
-    while changed and budget > 0:
-        changed = False
-        for p in sorted(set_paths(node, vs), key=len, reverse=True):
+def shrink_value(node, vs, fails, budget=250):
+    """greedy: take any smaller variant on which the same failure persists"""
+    progress = True
+    while progress and budget > 0:
+        progress = False
+        for cand in shrink_candidates(node, vs):
             budget -= 1
+            if budget <= 0:
+                break
             try:
-                cand = unset_at(node, vs, p)
+                if fails(cand):
+                    vs = cand
+                    progress = True
+                    break
             except Exception:  # noqa
                 continue
-            if cand != vs and fails(cand):
-                vs = cand
-                changed = True
-                break
     return vs
 
 
@@ -504,6 +517,30 @@ def culprit(node, vs) -> str:
         else:
             break
     return ".".join(parts)
+
+
+def neighbourhood_failure(node, vs, seed_idx, limit=120):
+    """breadth-first over shrunk forms of [vs]; first in-domain one on which the implementation violates the property"""
+    queue, seen, n = [vs], set(), 0
+    while queue and n < limit:
+        cur = queue.pop(0)
+        for cand in shrink_candidates(node, cur):
+            key = fields_str(node, cand)
+            if key in seen:
+                continue
+            seen.add(key)
+            n += 1
+            if n >= limit:
+                break
+            if ref.ref_fits(node["fields"], cand):
+                bad = prop_check(node, cand, seed_idx)
+                if bad is not None:
+                    kind = bad[0]
+                    small = shrink_value(node, cand, lambda c: (ref.ref_fits(node["fields"], c) and (prop_check(node, c, seed_idx) or ("",))[0] == kind))
+                    why = prop_check(node, small, seed_idx) or bad
+                    return kind, small, why[1]
+            queue.append(cand)
+    return None
 
 
 # ============================================================================ the property oracle (implementation vs reference)
@@ -607,9 +644,20 @@ def run(ctx):
                     type=t["name"], value=s, impl=ie, model=me, broken="correspondence Model/Tlv8.v <-> aiohomekit/tlv8.py")
         else:
             if ie != me:
-                add(f"enc-ood:{t['name']}:{origin}:model-mismatch",
-                    f"encode outside the round-trip domain ({origin}): implementation {ie[:100]} != model {me[:100]} on {s[:160]}", False,
-                    type=t["name"], value=s, impl=ie, model=me, broken="correspondence Model/Tlv8.v <-> aiohomekit/tlv8.py")
+                # before blaming the correspondence: does the implementation break the property on an
+                # in-domain value in the neighbourhood (shrunk forms) of this one?
+                near = neighbourhood_failure(node, vs, idx)
+                if near is not None:
+                    kind, small, why = near
+                    failing_types.add(t["name"])
+                    add(f"{kind}:{t['name']}.{culprit(node, small)}", f"{t['module']}.{t['name']}: {why}", True, type=t["name"],
+                        schema=schemas[ti], value=fields_str(node, small), impl_encode=impl_encode(node, small),
+                        reference_encoding=hx(ref.ref_message(node["fields"], small)), check=kind, wf_schema=t["wf"],
+                        found_near=s[:2000])
+                else:
+                    add(f"enc-ood:{t['name']}:{origin}:model-mismatch",
+                        f"encode outside the round-trip domain ({origin}): implementation {ie[:100]} != model {me[:100]} on {s[:160]}", False,
+                        type=t["name"], value=s, impl=ie, model=me, broken="correspondence Model/Tlv8.v <-> aiohomekit/tlv8.py")
         # decode what the implementation produced (also out of domain: what does an unrepresentable value come back as)
         if ie.startswith("ok "):
             dec_reqs.append(f"dec {schemas[ti]} {ie[3:]}")
